@@ -8,6 +8,19 @@ shard = (int(sys.argv[2]), int(sys.argv[3])) if len(sys.argv) > 3 else None
 REPO = os.environ.get('VERIF_REPO', '/repo')
 man = json.load(open('/verif/MANIFEST.json'))
 props = [c['property_id'] for c in man['checks']]
+# a patch can only change the verdict of checks whose units lift text from a file it touches: run just those
+import re, glob
+units = json.load(open('/verif/units.json'))
+def _files_of(tpl):
+    txt = open(os.path.join('/verif', tpl)).read()
+    for fr in re.findall(r'(?m)^//@fragment (\w+)', txt):
+        txt += open(f'/verif/units/frag/{fr}.vrs').read()
+    return set(re.findall(r'\bfile=(\S+)', txt))
+unit_files = {u: _files_of(c['template']) for u, c in units.items()}
+def props_touched(diff_path):
+    touched = set(re.findall(r'(?m)^\+\+\+ b/(\S+)', open(diff_path).read()))
+    us = [u for u, fs in unit_files.items() if fs & touched]
+    return sorted({p for u in us for p in units[u]['properties'] if p in props}), us
 bad = 0
 allf = sorted(x for x in os.listdir(d) if x.endswith('.diff'))
 if shard:
@@ -18,7 +31,8 @@ for f in allf:
         print(f, 'does not apply'); continue
     res = {}
     try:
-        for pid in props:
+        run_props, touched_units = props_touched(os.path.join(d, f))
+        for pid in run_props:
             r = subprocess.run(['bin/check', pid], cwd='/verif', capture_output=True, text=True)
             res[pid] = r.returncode
             if r.returncode == 1:
@@ -28,7 +42,7 @@ for f in allf:
                 print('  undecided', f, pid, [l[:230] for l in r.stdout.splitlines() if l.startswith('UNDECIDED')][:1])
     finally:
         subprocess.run(['git', '-C', REPO, 'checkout', '--', '.'])
-    print(f, {k: v for k, v in res.items() if v})
+    print(f, {k: v for k, v in res.items() if v}, 'checked', run_props)
 print('violations on benign edits:', bad)
 # evidence files written while a change was applied are not evidence about the tree: restore the committed ones
 import subprocess as _sp
